@@ -91,6 +91,67 @@ func VerifC20Fields() {
 	vReach("end")
 }
 
+// record independence: several records of one kind, the first rich in optional properties and the others
+// plain, come back each with exactly its own content - nothing of one record shows up in another (the Stored*
+// loops decode many records in a row)
+func VerifC20Independent() {
+	h := VerifNewHook()
+	c1, c2 := vStoreClient("a"), vStoreClient("b")
+	c1.Properties.Username = []byte("u")
+	c1.Properties.Props.ReceiveMaximum = 1 + vU16()/2
+	c1.Properties.Props.SessionExpiryInterval = 1 + vU32()/2
+	c1.Properties.Props.SessionExpiryIntervalFlag = true
+	c1.Properties.Will = mqtt.Will{TopicName: "w", Payload: []byte{1}, Qos: 1, Retain: true, Flag: 1, WillDelayInterval: 5}
+	h.OnSessionEstablished(c1, packets.Packet{})
+	h.OnSessionEstablished(c2, packets.Packet{})
+	rich := packets.Packet{FixedHeader: packets.FixedHeader{Type: packets.Publish, Qos: 1, Retain: true}, TopicName: "a", Payload: []byte{1}, PacketID: 3, Origin: "o", Created: 5}
+	rich.Properties.MessageExpiryInterval = 1 + vU32()/2
+	rich.Properties.PayloadFormat, rich.Properties.PayloadFormatFlag = 1, true
+	rich.Properties.ContentType, rich.Properties.ResponseTopic = "ct", "rt"
+	rich.Properties.CorrelationData = []byte{9}
+	rich.Properties.User = []packets.UserProperty{{Key: "k", Val: "v"}}
+	plain := packets.Packet{FixedHeader: packets.FixedHeader{Type: packets.Publish, Qos: 1, Retain: true}, TopicName: "b", Payload: []byte{2}, PacketID: 4, Created: 6}
+	h.OnRetainMessage(c1, rich, 1)
+	h.OnRetainMessage(c1, plain, 1)
+	h.OnQosPublish(c1, rich, 5, 0)
+	h.OnQosPublish(c1, plain, 6, 0)
+	h.OnSubscribed(c1, packets.Packet{Filters: packets.Subscriptions{{Filter: "a", Qos: 1, Identifier: 7, NoLocal: true, RetainAsPublished: true, RetainHandling: 2}}}, []byte{1})
+	h.OnSubscribed(c1, packets.Packet{Filters: packets.Subscriptions{{Filter: "b"}}}, []byte{0})
+	isPlain := func(m packets.Packet) bool {
+		pr := m.Properties
+		return pr.MessageExpiryInterval == 0 && !pr.PayloadFormatFlag && pr.PayloadFormat == 0 && pr.ContentType == "" && pr.ResponseTopic == "" && len(pr.CorrelationData) == 0 && len(pr.User) == 0 && m.Origin == ""
+	}
+	rs, _ := h.StoredRetainedMessages()
+	vAssert("two-retained-records", len(rs) == 2)
+	for _, r := range rs {
+		if r.TopicName == "b" {
+			vAssert("plain-retained-message-restored-without-foreign-properties", isPlain(r.ToPacket()) && len(r.Payload) == 1 && r.Payload[0] == 2)
+		}
+	}
+	is, _ := h.StoredInflightMessages()
+	vAssert("two-inflight-records", len(is) == 2)
+	for _, r := range is {
+		if r.TopicName == "b" {
+			vAssert("plain-inflight-message-restored-without-foreign-properties", isPlain(r.ToPacket()) && r.PacketID == 4)
+		}
+	}
+	ss, _ := h.StoredSubscriptions()
+	vAssert("two-subscription-records", len(ss) == 2)
+	for _, x := range ss {
+		if x.Filter == "b" {
+			vAssert("plain-subscription-restored-without-foreign-options", x.Identifier == 0 && !x.NoLocal && !x.RetainAsPublished && x.RetainHandling == 0 && x.Qos == 0)
+		}
+	}
+	cs, _ := h.StoredClients()
+	vAssert("two-client-records", len(cs) == 2)
+	for _, x := range cs {
+		if x.ID == "b" {
+			vAssert("plain-client-restored-without-foreign-properties", len(x.Username) == 0 && x.Properties.ReceiveMaximum == 0 && x.Properties.SessionExpiryInterval == 0 && !x.Properties.SessionExpiryIntervalFlag && x.Will.Flag == 0 && x.Will.TopicName == "")
+		}
+	}
+	vReach("end")
+}
+
 // key injectivity: two different (client id, filter) pairs, or (client id, packet id) pairs, never share a
 // storage key, for identifiers containing the separator characters
 func VerifC20Keys() {
